@@ -10,6 +10,9 @@ PutFn(f, k, v) == [x \in DOMAIN f \cup {k} |-> IF x = k THEN v ELSE f[x]]
 IInit == [ msg |-> EmptyFn,      \* group -> digest of its messages when first seen
            ev |-> EmptyFn,       \* event id -> current digest
            first |-> EmptyFn,    \* group -> digest of the first event coalesced from it
+           evGroup |-> EmptyFn,  \* event id -> group it was coalesced from
+           resolved |-> EmptyFn, \* group -> digest of the first event of it that was resolved
+           done |-> {},          \* events that have been resolved
            flags |-> << >> ]
 
 \* o.msgs: group -> digest ; o.events: sequence (event id -> digest) ; o.newev: digest of the event this operation returned
@@ -21,13 +24,21 @@ IStep(m0, o) ==
         changedEvs == { e \in es \cap DOMAIN m.ev : o.events[e] # m.ev[e] /\ ~(o.op = "resolve" /\ e = o.event) }
         isNew == o.op = "coalesce" /\ o.ret = "event"
         repeatDiffers == isNew /\ o.group \in DOMAIN m.first /\ o.events[o.event] # m.first[o.group]
+        \* the first resolution of an event: its outcome must be the one the same messages had before
+        firstRes == o.op = "resolve" /\ o.event \in DOMAIN m.evGroup /\ o.event \notin m.done /\ o.event \in es
+        rg == IF firstRes THEN m.evGroup[o.event] ELSE 0
+        outcomeDiffers == firstRes /\ rg \in DOMAIN m.resolved /\ o.events[o.event] # m.resolved[rg]
     IN  [m EXCEPT
            !.flags = (IF o.ret = "panic" THEN << IFlag("operation panicked") >> ELSE << >>)
                      \o (IF changedMsgs # {} THEN << IFlag("an input message reports different Data/Tags/ToMapStr after " \o o.op) >> ELSE << >>)
                      \o (IF changedEvs # {} THEN << IFlag("a previously returned event changed during " \o o.op \o " of another event") >> ELSE << >>)
-                     \o (IF repeatDiffers THEN << IFlag("coalescing the same messages again yields a different event") >> ELSE << >>),
+                     \o (IF repeatDiffers THEN << IFlag("coalescing the same messages again yields a different event") >> ELSE << >>)
+                     \o (IF outcomeDiffers THEN << IFlag("resolving the IDs of the same messages again gives a different outcome: resolving other events altered it") >> ELSE << >>),
            \* remember the latest digest: a change is flagged once, at the operation that caused it
            !.msg = [g \in gs \cup DOMAIN m.msg |-> IF g \in gs THEN o.msgs[g] ELSE m.msg[g]],
            !.ev = [e \in es |-> o.events[e]],
-           !.first = IF isNew /\ o.group \notin DOMAIN m.first THEN PutFn(@, o.group, o.events[o.event]) ELSE @]
+           !.first = IF isNew /\ o.group \notin DOMAIN m.first THEN PutFn(@, o.group, o.events[o.event]) ELSE @,
+           !.evGroup = IF isNew THEN PutFn(@, o.event, o.group) ELSE @,
+           !.resolved = IF firstRes /\ rg \notin DOMAIN m.resolved THEN PutFn(@, rg, o.events[o.event]) ELSE @,
+           !.done = IF firstRes THEN @ \cup {o.event} ELSE @]
 =============================================================================
